@@ -21,3 +21,17 @@ Ltac path_facts H :=
 
 Ltac list_eq_ring := list_eq ltac:(ring).
 Ltac list_eq_field := list_eq ltac:(first [ring | field; auto]).
+
+(* Equality of two real expressions whose square roots have ring-equal (not syntactically equal) arguments:
+   rewrite every sqrt argument into one representative per ring-equality class, then ring / field.  This makes the
+   tie lemmas independent of how the code arranges a squared length (x*x+y*y+z*z, einsum, norm, sum of squares ...). *)
+Ltac unify_sqrts :=
+  repeat match goal with
+  | |- context [sqrt ?a] =>
+      match goal with
+      | |- context [sqrt ?b] =>
+          lazymatch a with b => fail | _ => idtac end;
+          replace a with b by ring
+      end
+  end.
+Ltac ring_sqrt := first [ reflexivity | ring | (unfold Rdiv; unify_sqrts; first [ ring | field; auto ]) ].
